@@ -72,6 +72,22 @@ CHECKS = {
    technique="bounded-exhaustive command sequences on the real database in lock-step with a reference model (index set over current values)",
    text="Every sequence of <=5 / <=6 commands over a 16-command alphabet (value insert/replace/remove on indexed and non-indexed keys, element removal incl. cascaded edges, index create/remove/create-again, aborted and committing transactions mixing them) from 2 base states; after every command: index listing = per indexed key the number of elements having it, index search for 3 keys x 3 values = exactly the elements whose current value matches (error iff no such index), duplicate index creation rejected.",
    note="as C08"),
+ "C14": dict(level="model_checking", engine="search_checks", design="§4/C14, harness/search_checks/NOTES.md",
+   technique="exhaustive enumeration of all small multigraph histories x all origins x 4 traversals on the real database against a reference evaluator",
+   text="All graph histories (ordered edge insertions incl. self-loops and parallel edges, removal of the j-th oldest edge, node renewal with id reuse) with node slots:history length 1:5, 2:5, 3:5, 4:3 (quick, 4.6*10^5 histories, 3.8*10^7 searches) / 1:7, 2:7, 3:6, 4:5 plus DbFile 3:3 (thorough, 1.2*10^7 histories, 1.15*10^9 searches); every live node and edge as origin x {bfs,dfs} x {from,to}: origin first, result set = reachable set without duplicates, BFS distances non-decreasing with each node's edges newest first, DFS = the unique pre-order with newest-first edges, distances count every element step.",
+   note="Only what the statement says is demanded (the order of nodes within a BFS level is free). Graphs beyond the bound are not covered."),
+ "C15": dict(level="model_checking", engine="search_checks", design="§4/C15, harness/search_checks/NOTES.md",
+   technique="exhaustive enumeration of comparison grids and of all condition lists up to a length over a fixed atom alphabet, on fixed graphs x 4 traversals, against a reference evaluator of the documented truth tables",
+   text="A grid of 14787 key-value comparison cells (9 comparison kinds x all value-type pairs incl. cross-type) plus all condition lists of length <= 2 over 60 atoms x 4 modifiers x and/or and where-groups (quick, 9.6*10^4 lists, 1.1*10^7 searches; thorough adds group pairs and all length-3 lists over a 14-atom core, 3.2*10^6 lists, 3.7*10^8 searches) on 4 property-bearing graphs x bfs/dfs x from/to; selection and traversal extent must equal the reference evaluator (type-strict comparisons, documented vector exception).",
+   note="Documented-ambiguous corners are judged under every admissible reading (accepted if any matches) and listed in the evidence; beyond/not_beyond joined by or is never generated."),
+ "C16": dict(level="model_checking", engine="search_checks", design="§4/C16, harness/search_checks/NOTES.md",
+   technique="exhaustive enumeration of (offset, limit) grids x orderings x search kinds on a graph family, differential oracle against the unsliced search",
+   text="24 (quick) / 1503 (thorough) graphs x all search kinds (bfs, dfs, both reverse, path, elements) x 4 condition variants x 15 orderings (0-2 keys, asc/desc, mixed presence and types) x the full (offset, limit) grid over 0..n+3 and 2^64-1: result = slice of the same search without limit/offset; with ordering = stable sort by the keys, elements lacking a key last; never Err or panic.",
+   note="Between stored values of different types under one ordering key the public Ord of DbValue is assumed."),
+ "C17": dict(level="model_checking", engine="search_checks", design="§4/C17, harness/search_checks/NOTES.md",
+   technique="exhaustive enumeration of all small multigraphs x endpoint pairs x condition forms and pass/fail/stop assignments, against brute-force minimum cost over all simple paths",
+   text="All multigraphs and removal histories on <= 3-4 nodes (quick 9370 graphs, 1.1*10^7 searches; thorough 1.7*10^5 graphs, 6*10^9 searches) x all (origin, destination) pairs incl. equal, missing and edge ids x 10 condition forms + every assignment of pass/fail/stop to the elements: the result is the pass-filtered element list of some path of minimal cost; empty exactly when no usable path / bad endpoint / origin = destination.",
+   note="Distance conditions are excluded (not in the statement)."),
  "C18": dict(level="model_checking", engine="core_checks", design="§4/C08-C11,C18",
    technique="bounded-exhaustive command sequences on the real database in lock-step with a reference model; elements search compared at every state incl. all offset/limit pairs",
    text="At every state reached by <=5 / <=6 commands of the C08 alphabet (removals, id reuse) `search().elements()` must list exactly the existing elements in increasing order of |id|; with node(), edge() and keys() conditions exactly the matching ones in that order; and for every (offset, limit) in [0..n+1]^2 the corresponding slice.",
